@@ -221,9 +221,10 @@ _ADDENDA = {
         "(C03_noninterference_shape_refuted: keys of a secret object show through a public object merged over it - known finding "
         "C03-secret-shape, reproduced on the implementation); the two-run oracle also varies shapes; renderings go through the CLI's own "
         "PrepareEnvironment (plain, dotenv, shell).",
- "C05": "  The load clause is refuted for FAILING imports (C05_load_at_most_once_refuted; known finding C05-failed-load-retried, a small "
-        "repair exists) and proved for successful ones; the oracle checks load-at-most-once on the implementation's log for all loads; the "
-        "number of error diagnostics is compared with the model's.",
+ "C05": "  The load clause was false for FAILING imports (found by the theorem audit, repaired in esc by fix 080ae3f: a failed import is "
+        "remembered) and is now proved for all loads and every fault plan; the oracle checks load-at-most-once on the implementation's log "
+        "for all loads; the number of error diagnostics is compared with the model's.  Input schemas are modelled at the level of shapes (types, required, closed); the "
+        "keyword-level validator behind the same gate is C08's model and check.",
  "C11": "  Flip guarantees are about bits of the binary envelope before base64; at the level of the stored base64 text one flipped bit can "
         "be accepted (C11_text_one_flip_refuted, known finding C11-text-flips) and what does hold there is proved "
         "(C11_text_one_char_replaced, C11_text_char_outside_alphabet, C11_two_adjacent_bytes_rejected).  Every text also goes through "
@@ -248,6 +249,12 @@ _ADDENDA = {
         "diagnostics is compared with the model's.",
  "C08": "  Values also reach the gate by reference to an object merged from three layers (found and repaired: const/enum vs merged objects, "
         "c0963c8); numeric keyword combinations and $ref chains with sibling keywords are enumerated.",
+ "C01": "  References that read through 2-4 layers (siblings and chains) and sparse nestings (a middle layer without the inner key) are "
+        "generated next to the fold itself.",
+ "C02": "  A provider's output as one layer of a three-layer merge of the same key (every kind of output schema) with path claims for every "
+        "reference that reads through the layers.",
+ "C10": "  Sparse nesting family: which of three layers lacks the inner key x depth 1-3 x listing order.",
+ "C16": "  The fake process runner hands out a genuine *exec.ExitError obtained from a real child.",
  "C12": "  A panic inside the rewrite is an observation of the case (judged), not a skipped case; no tree handed to the emitter holds a "
         "string yaml.v3 mangles (C12_encrypt/_decrypt_output_encodable, fix 9b9d633); the codec hypothesis of the text-level theorems is "
         "shown satisfiable (C12_book_is_a_codec); every document also runs through yaml.v3 ALONE (parse, emit, parse) as a control: where "
@@ -259,7 +266,8 @@ _ADDENDA = {
         "the non-UTF-8 excuse applies only to values that reach the encoder with invalid UTF-8 (direct and base64-decoded sources).",
  "C19": "  Known classes are excused only where the model reproduces the range and the recorded cause sits on the attached node; grapheme "
         "widths are the answers of the external collaborator uniseg and travel on the wire; anchored slices are refuted; a crash is a "
-        "violation.",
+        "violation.  Three routes report ranges: the fresh declaration, the same declaration evaluated again after its diagnostics were printed "
+        "with its own writer, and the text loaded through the io.Reader entry point.",
 }
 for _k, _t in _ADDENDA.items():
     CHECKS[_k]["text"] = CHECKS[_k]["text"] + _t
